@@ -3,6 +3,7 @@ package main
 
 import (
 	"verifharness/hx"
+	"verifharness/idx"
 	"verifharness/reusex"
 	"verifharness/tdcx"
 )
@@ -13,4 +14,5 @@ func main() {
 	defer w.Close()
 	tdcx.Drive(w, o, "C01", func(s string) string { return "(KTdc " + s + ")" })
 	reusex.Drive(w, o, func(s string) string { return "(KReuse " + s + ")" })
+	idx.Drive(w, o, func(s string) string { return "(KId " + s + ")" })
 }
